@@ -281,7 +281,7 @@ class HCT(Algorithm):
 
         """
         nodes = self.partition.get_node_list()
-        for i in range(1, self.partition.get_depth() + 1):
+        for i in range(1, self.partition.get_depth() + 2):
             layer = nodes[-i]
             for node in layer:
 
